@@ -126,6 +126,10 @@ fn misc_case(inp: &[u64], chunks: bool) -> Result<(), String> {
     src.extend(vals.iter().copied());
     if src.len() != len { return Err("extend: len".into()); }
     for i in 0..len { if src.get(i) != vals[i] { return Err(format!("extend: get({})", i)); } }
+    // extend validates like push: a value that does not fit the width is rejected by a panic, never stored truncated
+    if w16 < 16 && !chunks { let mut e = BitFieldVec::<u16>::new(w16, 0); let bad: u16 = maxv.wrapping_add(1) | (1 << w16);
+        let r = std::panic::catch_unwind(std::panic::AssertUnwindSafe(|| e.extend([maxv, bad, 0])));
+        if r.is_ok() { return Err(format!("extend accepted {} at width {} (len now {})", bad, w16, e.len())); } }
     let need = vals.iter().map(|&x| 16 - x.leading_zeros() as usize).max().unwrap_or(0);
     if !chunks { match inp[1] % 3 {
         0 => { let r = BitFieldVec::<u8>::from_slice(&src);
@@ -140,6 +144,11 @@ fn misc_case(inp: &[u64], chunks: bool) -> Result<(), String> {
     let words: Vec<u16> = (0..nw).map(|_| rng.next() as u16).collect();
     let mut v = unsafe { BitFieldVec::<u16, Vec<u16>>::from_raw_parts(words.clone(), w16, len) };
     let before: Vec<u16> = (0..len).map(|i| v.get(i)).collect();
+    { // classify a panic of the call itself by its input class (the known width-0 finding must not hide anything else)
+      let mut probe = unsafe { BitFieldVec::<u16, Vec<u16>>::from_raw_parts(words.clone(), w16, len) };
+      let r = std::panic::catch_unwind(std::panic::AssertUnwindSafe(|| { let _ = probe.try_chunks_mut(chunk).map(|c| c.count()); }));
+      if let Err(p) = r { let msg = p.downcast_ref::<&str>().map(|s| s.to_string()).or_else(|| p.downcast_ref::<String>().cloned()).unwrap_or_default();
+          return Err(if w16 == 0 { format!("try_chunks_mut on bit width 0 panics: {}", msg) } else { format!("try_chunks_mut panics for width {} len {} chunk {}: {}", w16, len, chunk, msg) }); } }
     match v.try_chunks_mut(chunk) {
         Err(()) => { if len <= chunk || (chunk * w16) % 16 == 0 { return Err(format!("try_chunks_mut({}) refused a legal chunk size", chunk)); } }
         Ok(chunks) => {
